@@ -61,7 +61,7 @@ func main() {
 	case "C01":
 		c.roundTrip(all, n)
 	case "C02":
-		c.encodeSide(c.accepted("maps", "lists", "scalars", "byvalue", "recursive", "spellings", "random", "leaf", "ids", "wide"), n, false)
+		c.encodeSide(c.accepted("maps", "lists", "scalars", "byvalue", "recursive", "spellings", "random", "leaf", "ids", "wide", "defaults"), n, false)
 	case "C03":
 		c.decodeSide(c.accepted("evolution", "evomix", "empty", "recursive", "maps", "lists", "scalars", "byvalue", "ids", "random", "defaults", "wide"), n, false)
 	case "C04":
@@ -71,13 +71,15 @@ func main() {
 		c.malformed(us, (n+2)/3)
 		c.allocBound(c.accepted("lists", "maps")[:4])
 	case "C06":
+		c.walkAll = true
 		c.roundTrip(c.accepted("lists", "maps", "scalars", "byvalue", "recursive", "nocopy", "ptrbinary", "random", "defaults"), n)
-		c.decodeSide(c.accepted("evolution", "nocopy", "ptrbinary", "scalars", "defaults", "byvalue", "leaf", "recursive"), n, false)
+		c.decodeSide(c.accepted("evolution", "nocopy", "ptrbinary", "scalars", "defaults", "byvalue", "leaf", "recursive", "lists", "maps"), n, false)
 		c.spanOps(40 * n)
 	case "C07":
 		c.cacheHistory(60 * n)
 		c.resolveAll(true)
 		c.history(all, 400*n)
+		c.argOps()
 		c.poolResidue(c.accepted("ids", "recursive", "leaf", "evolution", "scalars"), 200*n)
 		c.resolveAll(false)
 	case "C08":
